@@ -5,3 +5,4 @@ import EpsicModel.Vec
 import EpsicModel.Quat
 import EpsicModel.Pauli
 import EpsicModel.Alias
+import EpsicModel.Gauss
